@@ -196,7 +196,7 @@ def g1justify(ctx, rep, only_class=None, floor=10):
         if only_class and fn.cls != only_class and not is_ctl:
             continue
         for g in find_guards(eng, fn):
-            key = (fn.base, g[4])
+            key = (fn.base, g[4], fn.site(g[0].tloc or ""))
             if key in seen:
                 continue
             seen.add(key)
